@@ -25,7 +25,9 @@ def run(ctx):
     known = {}
     pats = ['*', '**', '*/*', '*.txt', '**/*.txt', 'sub', 'sub/', '*/', '**/', 's*', '[ab]*', '!(a*)', '@(real|vis)/*', '.*', 'real/**', '*/sub/*', 'a', 'x.txt',
             ['*', '*/'], ['sub', 'sub/'], ['**/*', '**/*/'], 'nlink', 'd*/', '**/x*', './*', 'real/./x.txt',
-            'b/**/deep.txt', 'sub/**/*.txt', 'b/**/sub/*', 'real/**/y.txt', 'x/**/f', '*/**/x*', 'a/**', 'sub/**']
+            'b/**/deep.txt', 'sub/**/*.txt', 'b/**/sub/*', 'real/**/y.txt', 'x/**/f', '*/**/x*', 'a/**', 'sub/**',
+            # segments that can match `.` as well as a real directory (pathlib normalises `./x` and `x/.` to the same path)
+            '@(sub|.)/@(sub|.)', '@(.|.hd)/.*', '@(a|.)/@(b|.)', '.*/.*', '@(real|.)/*']
     for ti in range(len(trees.DESIGNED) + (3 if ctx.quick else 30)):
         spec = trees.DESIGNED[ti] if ti < len(trees.DESIGNED) else trees.random_spec(rng, size=rng.randint(5, 12))
         with trees.Tree(spec + [('pkg.d', 'd', None), ('pkg.d/m.py', 'f', None)]) as T:
@@ -36,6 +38,7 @@ def run(ctx):
                 root = PL.Path(T.root)
                 for pat in pats:
                     for fv in (0, PL.GLOBSTAR, PL.GLOBSTAR | PL.DOTGLOB | PL.EXTGLOB, PL.EXTGLOB | PL.NODIR, PL.GLOBSTAR | PL.NEGATE | PL.SCANDOTDIR,
+                               PL.EXTGLOB | PL.SCANDOTDIR, PL.EXTGLOB | PL.SCANDOTDIR | PL.DOTGLOB | PL.GLOBSTAR,
                                PL.GLOBSTAR | PL.NOUNIQUE, PL.GLOBSTAR | PL.FOLLOW, PL.GLOBSTARLONG | PL.FOLLOW, PL.FORCEWIN if hasattr(PL, 'FORCEWIN') else Gm.FORCEWIN,
                                Gm.FORCEUNIX | Gm.GLOBSTAR):
                         if cyc and fv & (PL.FOLLOW | PL.GLOBSTARLONG):
@@ -67,7 +70,9 @@ def run(ctx):
                         if not fv & PL.NOUNIQUE and len(r1) != len(set(r1)):
                             ctx.counterexample('Path.rglob(%r, %s) yields the same file twice' % (pat, corr.flag_names(fv)), {'pattern': pat, 'tree': spec, 'result': r1[:10]})
                         # match (right anchored, REALPATH) <=> rglob yields it, for relative paths below cwd
-                        if isinstance(pat, str) and not (fv & (PL.NODIR | PL.NEGATE)) and './' not in pat:
+                        # (with SCANDOTDIR a pattern that can match `.` yields `x/.`, which pathlib spells `x`: rglob then yields
+                        #  paths by another route than match() takes; that spelling question is left to the duplicates clause)
+                        if isinstance(pat, str) and not (fv & (PL.NODIR | PL.NEGATE)) and './' not in pat and not (fv & PL.SCANDOTDIR and '.' in pat):
                             yielded = set(os.path.relpath(str(p), T.root) for p in PL.Path('.').rglob(pat, flags=fv))
                             for q in T.entries():
                                 evals += 1
@@ -103,6 +108,14 @@ def run(ctx):
                                 got_pure = PL.PurePosixPath(q).globmatch(pat, flags=fv & ~Gm.FORCEWIN)
                                 got_full = PL.PurePosixPath(q).full_match(pat, flags=fv & ~Gm.FORCEWIN)
                                 got_conc = PL.Path(q).globmatch(pat, flags=fv & ~Gm.FORCEWIN)
+                                got_cfull = PL.Path(q).full_match(pat, flags=fv & ~Gm.FORCEWIN)
+                                got_abs = PL.Path(os.path.join(T.root, q)).full_match(os.path.join(T.root, pat), flags=fv & ~Gm.FORCEWIN) if not pat.startswith(('!', '/')) else None
+                                want_abs = Gm.globmatch(os.path.join(T.root, q) + ('/' if isdir else ''), os.path.join(T.root, pat), flags=fg | Gm.FORCEUNIX) if got_abs is not None else None
+                                if got_cfull != want_conc or got_abs != want_abs:
+                                    ctx.counterexample('Path(%r).full_match(%r, %s) = %r (absolute spelling %r); glob.globmatch on the string with the directory separator says %r (%r)' % (
+                                        q, pat, corr.flag_names(fv), got_cfull, got_abs, want_conc, want_abs),
+                                        {'path': q, 'pattern': pat, 'flags': corr.flag_names(fv), 'tree': spec, 'is_dir': isdir})
+                                    break
                                 if (got_pure, got_full, got_conc) != (want_pure, want_pure, want_conc):
                                     ctx.counterexample('globmatch/full_match of %r against %r (%s): pure=%r full=%r concrete=%r, glob.globmatch says %r / %r' % (
                                         q, pat, corr.flag_names(fv), got_pure, got_full, got_conc, want_pure, want_conc),
